@@ -107,6 +107,17 @@ class Ctx:
             return self.ok(rule, func, desc, node)
         return self.violation(rule, func, desc, witness if witness is not None else desc, node, key)
 
+    def recognise(self, cond, rule, func, desc, node=None, witness=None, key=None):
+        """a structural fact established by recognising a construct: if the construct is not recognised the
+        checker says so (ANALYSIS-ERROR, exit 2) - it has no witness, so it never claims a violation"""
+        if cond:
+            return self.ok(rule, func, desc, node)
+        e = AnalysisError('shape', '%s: construct not recognised: %s' % (getattr(func, 'qual', func), desc),
+                          self._loc(func, node))
+        e.rule = rule
+        self.errors.append(e)
+        return None
+
     def note(self, rule, text):
         self.info.append({'rule': rule, 'note': text})
 
